@@ -1,13 +1,158 @@
 (* C04 — every mailbox implementation behaves like its sequential specification.
-   Statements only; proofs are in C04/*.v. *)
-From Coq Require Import List Bool Arith ZArith.
-Import ListNotations.
-From GV Require Import C04.Contract.
+   Statements only; proofs are in C04/*.v.  Models: C04/Model.v (the nine mailboxes as coded),
+   C04/Contract.v (reservation queue = UnboundedMailbox and the contract the other FIFO mailboxes
+   are tied to), C04/ConcPrio.v, C04/ConcFair.v (atomic-step models).
 
-(* The reservation queue (UnboundedMailbox, and the contract the other FIFO mailboxes refine)
-   satisfies the visibility contract for every interleaving of reserve/publish/dequeue steps. *)
-Theorem C04_rq_visibility_contract : forall (Msg : Type) (dec : forall a b : Msg, {a = b} + {a <> b}) (cap : option nat),
+   The literal property is FALSE on the current tree in four ways, each shown on the real code by
+   checks/C04.py and recorded in known_findings.json; each has a [_refuted] witness here and the
+   strongest statement that holds as [_partial]:
+     - emptiness reports while a completed enqueue is outstanding (reservation-style queues, and the
+       mutex-based priority mailbox whose counter is bumped after the push);
+     - phantom ErrMailboxFull of the bounded priority mailboxes;
+     - permanent stall of UnboundedFairMailbox (sender deactivated while a producer is mid-link);
+     - pooled-segment reuse of the segmented mailbox (no Coq model of the pool: shown on the real
+       code only; the FIFO theorems for it are the reservation-queue ones under "no reuse"). *)
+From Coq Require Import List Bool Arith ZArith Permutation.
+Import ListNotations.
+From GV Require Import C04.Model C04.Contract C04.Heap C04.Seq C04.Prio C04.ConcPrio C04.ConcFair.
+
+(* ---------------------------------------------------------------- FIFO, any interleaving *)
+
+(* The reservation queue satisfies the visibility contract for every interleaving of
+   reserve / publish / dequeue / isEmpty steps of any number of producers: ghost-exact conservation,
+   "empty report => nothing held or an enqueue in flight", progress when all enqueues completed. *)
+Theorem C04_fifo_visibility_contract : forall (Msg : Type) (dec : forall a b : Msg, {a = b} + {a <> b}) (cap : option nat),
   visibility_contract dec (rq dec cap).
 Proof. exact rq_contract. Qed.
 
-Print Assumptions C04_rq_visibility_contract.
+(* FIFO by linearisation point: Dequeue returns exactly the oldest reserved message, and only
+   when its enqueue has completed; a nil means nothing is held or the oldest is incomplete. *)
+Theorem C04_fifo_order : forall (Msg : Type) (dec : forall a b : Msg, {a = b} + {a <> b}) (cap : option nat),
+  fifo_contract (rq dec cap).
+Proof. exact rq_fifo. Qed.
+
+(* bounded: never more than capacity held; refused only at capacity (reservations counted) *)
+Theorem C04_fifo_capacity : forall (Msg : Type) (dec : forall a b : Msg, {a = b} + {a <> b}) (c : nat),
+  bounded_contract (rq dec (Some c)) c.
+Proof. exact rq_bounded. Qed.
+
+(* the literal emptiness clause fails: a completed enqueue hidden behind an incomplete one *)
+Theorem C04_fifo_empty_report_refuted : forall (Msg : Type) (dec : forall a b : Msg, {a = b} + {a <> b}) (a b : Msg),
+  a <> b -> exists s, mreach (rq dec None) s /\ In (b, true) s /\ rq_isEmpty s = true /\ fst (rq_deq s) = None.
+Proof. exact rq_hidden_completed. Qed.
+
+(* ... and this is what holds instead, for every mailbox satisfying the contract *)
+Theorem C04_empty_report_partial : forall (Msg : Type) (dec : forall a b : Msg, {a = b} + {a <> b}) (M : mbox Msg),
+  visibility_contract dec M -> forall s, mreach M s ->
+  (m_isEmpty M s = true \/ fst (m_deq M s) = None) -> all_complete (m_held M s) = true -> m_held M s = [].
+Proof. intros Msg dec M VC s. exact (@empty_report_all_complete Msg dec M VC s). Qed.
+
+(* ---------------------------------------------------------------- sequential refinement *)
+
+(* UnboundedMailbox: for all operation sequences, outputs and Len/IsEmpty after every operation
+   are those of a FIFO list *)
+Theorem C04_unbounded_refines_fifo : forall ops,
+  mrun unb_model (minit unb_model) ops = mrun (fifo_spec None false) (minit (fifo_spec None false)) ops.
+Proof. exact unb_refines_fifo. Qed.
+
+(* the binary heap shared by the four priority mailboxes (container/heap and stableHeap run the same
+   up/down loops): for every strict weak order, push keeps the heap order and the elements; pop
+   returns a minimum, keeps the heap order and the remaining elements *)
+Theorem C04_heap_push : forall (A : Type) (less : A -> A -> bool),
+  (forall a b, less a b = true -> less b a = false) ->
+  (forall a b c, less a b = false -> less b c = false -> less a c = false) ->
+  forall l x, heap_ok less l -> heap_ok less (hpush less l x) /\ Permutation (hpush less l x) (x :: l).
+Proof. intros A less Ha Hn l x. exact (hpush_correct less Ha Hn l x). Qed.
+
+Theorem C04_heap_pop_min : forall (A : Type) (less : A -> A -> bool),
+  (forall a b, less a b = true -> less b a = false) ->
+  (forall a b c, less a b = false -> less b c = false -> less a c = false) ->
+  forall l x h, heap_ok less l -> hpop less l = Some (x, h) ->
+  heap_ok less h /\ Permutation (x :: h) l /\ (forall y, In y l -> less y x = false) /\ nth_error l 0 = Some x.
+Proof. intros A less Ha Hn l x h. exact (hpop_correct less Ha Hn l x h). Qed.
+
+(* priority-then-arrival: both stable priority mailboxes ARE the stable priority queue (take the
+   first minimal message in arrival order), all sequences, all capacities *)
+Theorem C04_stable_priority_refines : forall cap pf ops,
+  mrun (stable_model cap pf) (minit (stable_model cap pf)) ops =
+  mrun (pq_spec cap pf) (minit (pq_spec cap pf)) ops.
+Proof. exact stable_refines_pq. Qed.
+
+(* priority order: every behaviour of the unstable priority mailboxes is a behaviour of the
+   priority queue (Dequeue returns a minimum of what is held; conservation; exact Len/IsEmpty;
+   ErrMailboxFull exactly at capacity) *)
+Theorem C04_bounded_priority_behaviour : forall cap pf ops,
+  pq_ok pf (Some cap) [] ops (mrun (bprio_model cap pf) (minit (bprio_model cap pf)) ops).
+Proof. exact bprio_behaves_as_priority_queue. Qed.
+
+Theorem C04_unbounded_priority_behaviour : forall pf ops,
+  pq_ok pf None [] ops (mrun (uprio_model pf) (minit (uprio_model pf)) ops).
+Proof. exact uprio_behaves_as_priority_queue. Qed.
+
+(* ---------------------------------------------------------------- priority mailboxes, any interleaving *)
+
+Theorem C04_intake_capacity : forall cap c s, cap = Some c -> (0 <= c)%Z -> ireach cap s ->
+  (zlen (iheld s) + zlen (iadm s) <= c)%Z.
+Proof. exact intake_capacity. Qed.
+
+Theorem C04_intake_conservation : forall cap s, ireach cap s -> Permutation (iheld s ++ iout s) (ipushed s).
+Proof. exact intake_conservation. Qed.
+
+Theorem C04_intake_empty_report : forall cap s s', ireach cap s ->
+  (istep cap s (ITake None) s' \/ istep cap s (IIsEmpty true) s') -> iheld s = [].
+Proof.
+  intros cap s s' Hr [H|H]; [exact (intake_deq_nil_means_empty cap s s' Hr H) | exact (intake_isempty_means_empty cap s s' Hr H)].
+Qed.
+
+Theorem C04_reject_only_when_full_refuted :
+  exists s m s', ireach (Some 1%Z) s /\ istep (Some 1%Z) s (IAdmit m true) s' /\
+                 iheld s = [] /\ iadm s = [] /\ icp s = false.
+Proof. exact intake_reject_refuted. Qed.
+
+Theorem C04_reject_only_when_full_partial : forall cap c s m s', cap = Some c -> ireach cap s ->
+  istep cap s (IAdmit m true) s' ->
+  (c <= zlen (iheld s) + zlen (iadm s) + Z.of_nat (irej s) + b2z (icp s))%Z.
+Proof. exact intake_reject_partial. Qed.
+
+Theorem C04_uprio_empty_report_refuted :
+  exists s m2, lreach s /\ In m2 (ldone s) /\ In m2 (lheap s) /\ lcp s = false /\
+               lstep s (LTake None) s /\ lstep s (LIsEmpty true) s.
+Proof. exact uprio_empty_report_refuted. Qed.
+
+Theorem C04_uprio_empty_report_partial : forall s l s', lreach s -> lstep s l s' ->
+  (l = LTake None \/ l = LIsEmpty true) -> lcp s = false -> lheap s = [] \/ lpend s <> [].
+Proof. exact uprio_empty_report_partial. Qed.
+
+(* ---------------------------------------------------------------- fair mailbox *)
+
+(* the stall: a reachable quiescent state with two accepted messages (both Enqueue calls returned),
+   Len = 2, no active sender — and every further Dequeue returns nil *)
+Theorem C04_fair_stall_refuted :
+  quiescent stalled = true /\ clength stalled = 2%Z /\ caq stalled = [] /\ cdone stalled = [1%Z; 2%Z] /\
+  forall n, couts (frun (repeat 2%nat n)
+                    (mkC (cboxes stalled) (caq stalled) (clength stalled) (cprods stalled) (CIdle, n) [] (cdone stalled)))
+            = repeat None n.
+Proof.
+  destruct stalled_facts as [A [B [C [_ [E _]]]]]. repeat split; try assumption.
+  intros n. exact (proj1 (fair_stall_is_permanent n)).
+Qed.
+
+Print Assumptions C04_fifo_visibility_contract.
+Print Assumptions C04_fifo_order.
+Print Assumptions C04_fifo_capacity.
+Print Assumptions C04_fifo_empty_report_refuted.
+Print Assumptions C04_empty_report_partial.
+Print Assumptions C04_unbounded_refines_fifo.
+Print Assumptions C04_heap_push.
+Print Assumptions C04_heap_pop_min.
+Print Assumptions C04_stable_priority_refines.
+Print Assumptions C04_bounded_priority_behaviour.
+Print Assumptions C04_unbounded_priority_behaviour.
+Print Assumptions C04_intake_capacity.
+Print Assumptions C04_intake_conservation.
+Print Assumptions C04_intake_empty_report.
+Print Assumptions C04_reject_only_when_full_refuted.
+Print Assumptions C04_reject_only_when_full_partial.
+Print Assumptions C04_uprio_empty_report_refuted.
+Print Assumptions C04_uprio_empty_report_partial.
+Print Assumptions C04_fair_stall_refuted.
